@@ -63,47 +63,85 @@ class StmtMixin:
         outs.extend((NEXT, q, None) for q in states)
         return outs
 
-    def check_anchors(self, qname, fnode):
-        """every ghost_at of this function must find its anchor statement: a sidecar that no longer matches the code
-        makes the unit undecidable (reported as unsupported), never silently weaker"""
+    def _simple_stmts(self, fnode):
+        return [sub for sub in ast.walk(fnode)
+                if isinstance(sub, ast.stmt) and not isinstance(sub, (ast.If, ast.While, ast.For, ast.Try, ast.FunctionDef))]
+
+    @staticmethod
+    def _canon(node, local_names):
+        """source text of a statement with the function's (non-parameter) local names blanked, and those names in order"""
+        import copy
+        c = copy.deepcopy(node)
+        names = []
+        for sub in ast.walk(c):
+            if isinstance(sub, ast.Name) and sub.id in local_names:
+                names.append(sub.id)
+                sub.id = '_'
+        return ast.unparse(c), names
+
+    def resolve_anchors(self, qname, fnode):
+        """Where do the ghost_at statements of this function attach?  First by the exact source text of the anchor
+        statement (nth occurrence); if that text no longer occurs, by its text MODULO LOCAL VARIABLE NAMES, provided that
+        match is unique in the function: the renamed locals are then made visible to the ghost statement under their old
+        names.  A ghost_at that still finds no anchor makes the unit unsupported (the sidecar is out of date): a proof is
+        never silently run without its ghost statements.  Returns {id(stmt): [(ghost_at, {old name: new name})]}."""
+        cache = getattr(self, '_anchor_cache', None)
+        if cache is None:
+            cache = self._anchor_cache = {}
+        if qname in cache:
+            return cache[qname]
         gats = self.specs.ghost_ats.get(qname) if self.specs else None
-        if not gats:
-            return
-        done = getattr(self, '_anchors_ok', None)
-        if done is None:
-            done = self._anchors_ok = set()
-        if qname in done:
-            return
-        texts = {}
-        for sub in ast.walk(fnode):
-            if isinstance(sub, ast.stmt) and not isinstance(sub, (ast.If, ast.While, ast.For, ast.Try, ast.FunctionDef)):
-                t = ast.unparse(sub)
-                texts[t] = texts.get(t, 0) + 1
-        for g in gats:
-            if texts.get(g.after, 0) <= g.nth:
-                raise Unsupported('ghost_at anchor not found in %s (the sidecar is out of date): %s' % (qname, g.after[:80]))
-        done.add(qname)
+        out = {}
+        if gats:
+            from . import alpha
+            stmts = self._simple_stmts(fnode)
+            texts = [ast.unparse(s) for s in stmts]
+            cur_locals = set(alpha.own_locals(fnode) or [])
+            base = (getattr(self.repo, 'alpha_base', None) or {}).get(qname)
+            base_locals = set(base['locals']) if base else set()
+            for g in gats:
+                idx = [k for k, t in enumerate(texts) if t == g.after]
+                if len(idx) > g.nth:
+                    out.setdefault(id(stmts[idx[g.nth]]), []).append((g, {}))
+                    continue
+                try:
+                    anode = ast.parse(g.after).body[0]
+                except SyntaxError:
+                    anode = None
+                hit = None
+                if anode is not None and g.nth == 0:
+                    # names of the anchor that are not parameters / globals of the current function: its old locals
+                    atext, anames = self._canon(anode, base_locals | cur_locals)
+                    cands = []
+                    for k, s_ in enumerate(stmts):
+                        ctext, cnames = self._canon(s_, cur_locals | base_locals)
+                        if ctext == atext and len(cnames) == len(anames):
+                            cands.append((k, cnames))
+                    if len(cands) == 1:
+                        k, cnames = cands[0]
+                        ren = {}
+                        ok = True
+                        for a, b in zip(anames, cnames):
+                            if ren.setdefault(a, b) != b:
+                                ok = False
+                        if ok:
+                            hit = (stmts[k], {a: b for a, b in ren.items() if a != b})
+                if hit is None:
+                    raise Unsupported('ghost_at anchor not found in %s (the sidecar is out of date): %s' % (qname, g.after[:80]))
+                out.setdefault(id(hit[0]), []).append((g, hit[1]))
+        cache[qname] = out
+        return out
+
+    def check_anchors(self, qname, fnode):
+        self.resolve_anchors(qname, fnode)
 
     def apply_ghost_ats(self, gats, st, p, fc):
-        """sidecar ghost statements attached after a statement (matched by its source text, never by line)"""
+        """sidecar ghost statements attached after a statement (see resolve_anchors)"""
         if isinstance(st, (ast.If, ast.While, ast.For, ast.Try, ast.FunctionDef)):
             return
         text = ast.unparse(st)
-        for g in gats:
-            if g.after != text:
-                continue
+        for (g, renamed) in self.resolve_anchors(fc.qname, fc.node).get(id(st), []):
             if g.contract is not None and g.contract != getattr(self, 'contract_name', None):
-                continue
-            # occurrence number of this statement text within the function
-            n = 0
-            hit = None
-            for sub in ast.walk(fc.node):
-                if isinstance(sub, ast.stmt) and not isinstance(sub, (ast.If, ast.While, ast.For, ast.Try, ast.FunctionDef)):
-                    if ast.unparse(sub) == text:
-                        if sub is st:
-                            hit = n
-                        n += 1
-            if hit != g.nth:
                 continue
             self.ghost_hits = getattr(self, 'ghost_hits', set())
             self.ghost_hits.add((g.target, g.after, g.nth))
@@ -112,6 +150,9 @@ class StmtMixin:
             saved = p.env
             env = dict(p.ghost.get('genv', {}))
             env.update(p.env)
+            for old_name, new_name in renamed.items():      # locals renamed in the code keep their old names in the ghost
+                if new_name in env and old_name not in env:
+                    env[old_name] = env[new_name]
             p.env = env
             try:
                 for (nm, e) in g.lets:
